@@ -187,7 +187,7 @@ SHAPE_DIRECTIVES = [{}, {"fl": ["only-if-cached"]}, {"ms": gen.NOARG}, {"fl": ["
 def uri_scenarios(rows, tier, seed):
     """store a response for render(a), then request render(b)"""
     r = random.Random(seed * 2654435761 + 9)
-    cap = 14000 if tier == "quick" else 10 ** 9   # (every pair of the quick model: a pair is three to five requests)
+    cap = 16000 if tier == "quick" else 10 ** 9   # (every pair of the quick model: a pair is three to five requests)
     if len(rows) > cap:
         # all equivalent pairs and all pairs that differ in a single component, a seeded sample of the rest
         def dist(x):
@@ -217,7 +217,7 @@ def uri_scenarios(rows, tier, seed):
             for dn, dirs in enumerate(SHAPE_DIRECTIVES):
                 steps = [{"op": "req", "rq": gen.rq(u=0, url=ua, m=m1, range=r1), "ans": [a_ok]},
                          {"op": "tick", "d": 1},
-                         {"op": "req", "rq": gen.rq(u=0 if same else 1, url=ub, m=m2, range=r2, **dirs), "ans": [a_ok]},
+                         {"op": "req", "rq": gen.rq(u=0 if same else 1, url=ub, m=m2, range=r2, rawkeys=[0, 1, 3][(j + k + dn) % 3], **dirs), "ans": [a_ok]},
                          {"op": "tick", "d": 1},
                          {"op": "req", "rq": gen.rq(u=0, url=ua), "ans": [a_ok]}]
                 out.append({"id": "urim/%02d-%d-%d" % (j, k, dn), "backend": "mem", "opt": {}, "steps": steps, "grp": "", "spv": 0})
